@@ -312,6 +312,9 @@ def fold(e):
   if not isinstance(e, ast.AST):
     return e
   e = _map_children(e, fold)
+  if isinstance(e, ast.Call) and isinstance(e.func, ast.Name) and e.func.id == 'getattr' and len(e.args) == 2 and not e.keywords \
+      and isinstance(e.args[1], ast.Constant) and isinstance(e.args[1].value, str) and e.args[1].value.isidentifier():
+    return ast.Attribute(value=e.args[0], attr=e.args[1].value, ctx=ast.Load())          # getattr(o, 'name') after a table entry was substituted
   if isinstance(e, ast.IfExp) and isinstance(e.test, ast.Constant):
     return e.body if e.test.value else e.orelse           # a conditional with a literal test (after inlining a helper)
   if isinstance(e, ast.Subscript) and isinstance(e.value, ast.DictComp) and len(e.value.generators) == 1:
